@@ -17,7 +17,7 @@ CONFIGS = {
     'quick': [('chains', ('H_CHQ', 'M_CH', 'T_CH', 'O_CH', 2, 2, 'NoGates'), 2500), ('aliases', ('H_A', 'M_A', 'T_A', 'O_A', 2, 3), 1500)],
     'thorough': [('chains', ('H_CH', 'M_CH', 'T_CH', 'O_CH', 3, 2, 'NoGates'), 80000), ('aliases', ('H_A', 'M_A', 'T_A', 'O_A', 3, 3), 40000)],
 }
-OWNED = {'accepted', 'no_alias_refs', 'meaning_mod_sub', 'header_carried', 'macros_kept', 'refs_follow_decls'}
+OWNED = {'accepted', 'no_alias_refs', 'no_let_refs', 'meaning_mod_sub', 'header_carried', 'macros_kept', 'refs_follow_decls'}
 EXEC_OWNED = {'vector', 'applied_gates', 'used_exact_circuit', 'used_exact_statement', 'exact_repr'}
 
 
@@ -46,7 +46,8 @@ def main(tier):
 
     def sites(p, rng):
         holder.append({'id': 'x/%d' % len(holder), 'prog': p})
-        return [('fill_in_map', [])]
+        # alias fill-in alone, and after let substitution under an override of every declared constant
+        return [('fill_in_map', [])] + [('fill_in_let_map', o) for o in passes.override_choices(p, rng, [0, 2, 1, 3], 3)]
     cfgs = {t: [(n, c[:6], b) for n, c, b in v] for t, v in CONFIGS.items()}
     # the chain configuration keeps gates inside subcircuit blocks so that the emulator accepts the programs
     import functools
